@@ -254,3 +254,6 @@ def run(ctx):
     # the cost identities must survive editing absence steps out of / into the logs: every level is edited alike
     from .C18 import check as absence_editors
     absence_editors(ctx)
+    # ... and reversing the logs after a backward run: every cost list is reversed, once (C08 R8.4)
+    from .C08 import r8_4
+    r8_4(ctx)
